@@ -15,7 +15,7 @@ TABLE = {
                      "AcqVerif.C04.committed_frames_are_the_camera_frames", "AcqVerif.C04.channel_used_within_its_rules",
                      "AcqVerif.C04.undisturbed_acquisition_is_complete", "AcqVerif.C04.stopped_undisturbed_acquisition_is_complete", "AcqVerif.Runtime.DStop.micro", "AcqVerif.Runtime.DEnd.micro", "AcqVerif.Runtime.DFin.micro",
                      "AcqVerif.Runtime.DUse.micro", "AcqVerif.Runtime.DLog.micro", "AcqVerif.Runtime.DId.micro"],
-        "classes": ["single", "two", "mon", "slowmon", "restart", "delay", "abort", "stofault", "camempty"],
+        "classes": ["single", "two", "mon", "slowmon", "restart", "delay", "abort", "stofault", "camempty", "avg1", "twofail"],
         "kinds": ("stored-", "camera-delivered", "packet-", "never-returns", "CRASH"),
         "what": "a finite acquisition that is started and stopped hands storage exactly the camera's N frames, in order, with ids, hardware ids "
                 "and pixel bytes unchanged (after an abort or a storage fault: a gap-free prefix), for one and two streams, wrapping rings, "
@@ -26,7 +26,7 @@ TABLE = {
         "theorems": ["AcqVerif.C06.monitor_consumes_the_stream_in_order", "AcqVerif.C06.mapped_region_is_the_next_bytes",
                      "AcqVerif.C06.flushed_monitor_has_nothing_unread", "AcqVerif.C06.fresh_monitor_sees_only_the_current_run",
                      "AcqVerif.C06.frames_of_the_current_run", "AcqVerif.C06.stop_flushes_a_registered_monitor", "AcqVerif.Runtime.DMon.micro"],
-        "classes": ["mon", "slowmon", "holdmon", "abortmon", "latemon", "avgmon"],
+        "classes": ["mon", "slowmon", "holdmon", "abortmon", "latemon", "avgmon", "avg1"],
         "kinds": ("monitor-", "map-read-failed", "stored-", "camera-delivered", "never-returns", "CRASH"),
         "what": "a client that maps/unmaps (partially, slowly, holding regions across stop/abort, over several acquisitions) sees consecutive frame "
                 "ids with the right pixels, nothing of a finished acquisition later, map/unmap keep succeeding, and storage is unaffected",
@@ -36,7 +36,7 @@ TABLE = {
         "theorems": ["AcqVerif.C07.stop_returns_armed_and_clean", "AcqVerif.C07.stop_has_joined", "AcqVerif.C07.start_over_finished_threads",
                      "AcqVerif.C07.idle_runtime_is_clean", "AcqVerif.C07.refusal_wakes_a_sleeping_source", "AcqVerif.C07.stop_never_waits_for_an_orphaned_sleeper",
                      "AcqVerif.Runtime.TInvAll.micro", "AcqVerif.Runtime.DWake.micro", "AcqVerif.Runtime.DStop.micro", "AcqVerif.Runtime.Reach.micro"],
-        "classes": ["abort", "abortmon", "holdmon", "trig", "avgabort", "stofault", "restart", "reconf"],
+        "classes": ["abort", "abortmon", "holdmon", "trig", "avgabort", "stofault", "restart", "reconf", "twofail", "trigfault"],
         "kinds": ("still-running-after", "state-after", "never-returns", "stored-", "camera-delivered", "CRASH", "monitor-frame-not-from"),
         "what": "abort/stop from any moment (ring full, client holding data, trigger wait, averaging, finished) return, leave workers finished, devices "
                 "stopped, runtime Armed, storage with a gap-free prefix, and the next acquisition complete",
@@ -46,7 +46,7 @@ TABLE = {
         "theorems": ["AcqVerif.C08.camera_stopped_once_per_start", "AcqVerif.C08.camera_started_only_when_armed", "AcqVerif.C08.camera_used_only_while_running",
                      "AcqVerif.C08.running_device_has_a_worker", "AcqVerif.C08.running_only_while_workers_alive", "AcqVerif.C08.not_running_after_workers_exit",
                      "AcqVerif.C08.unconfigured_stream_untouched", "AcqVerif.C08.start_while_running_refused"],
-        "classes": ["api", "switchfail", "restart", "two", "camfault", "reconf"],
+        "classes": ["api", "switchfail", "restart", "two", "camfault", "reconf", "stofault", "stopawait", "twofail"],
         "kinds": ("device-", "state-", "still-running-after", "never-returns", "CRASH"),
         "what": "every device is opened/closed once, started only when armed, stopped once per start, used only between start and stop; "
                 "Running reported only while workers are alive",
@@ -57,7 +57,7 @@ TABLE = {
                      "AcqVerif.C09.no_frame_call_after_failed_frame_call", "AcqVerif.C09.failed_camera_is_stopped", "AcqVerif.C09.one_stop_per_start",
                      "AcqVerif.C09.not_running_once_workers_exited", "AcqVerif.C09.returned_means_clean",
                      "AcqVerif.C09.faulty_run_stores_a_prefix", "AcqVerif.C09.acquisition_after_a_failure_is_complete"],
-        "classes": ["stofault", "camfault"],
+        "classes": ["stofault", "camfault", "avgfault", "trigfault", "twofail"],
         "kinds": ("append-after-failed", "get_frame-after-failed", "still-running-after", "state-", "never-returns", "stored-", "camera-delivered",
                   "device-", "CRASH"),
         "what": "after a scripted camera/storage failure at any call index nothing more reaches the device, the camera is stopped, stop/abort return, "
